@@ -576,6 +576,18 @@ def eval_wallet(case):
         out = []
         orig = W(case["key"], format="raw", label="lab", digits=case["digits"])
         fmt = case["format"]
+        # a live OBJECT handed to from_source() of a class with another wallet (or none): the object holds its key in the
+        # clear, so whatever the two wallets are, the result is the same configuration bound to the receiving class
+        for rname, RC in (("other_wallet", RD), ("no_wallet", base), ("same_class", W)):
+            try:
+                got = RC.from_source(orig)
+            except Exception as e:  # noqa: BLE001
+                out.append((f"C15|wallet|from_source_object:{rname}:raises:{type(e).__name__}", f"{rname}.from_source(<TOTP object made under tags {case['wtags']}>) raised {e!r} (receiver tags {case['rtags']})"))
+                continue
+            if got.key != case["key"] or got.digits != case["digits"] or got.label != "lab" or codes_of(got) != codes_of(orig):
+                out.append((f"C15|wallet|from_source_object:{rname}:differs", f"{rname}.from_source(<object under {case['wtags']}>) has key {got.key!r}, expected {case['key']!r}"))
+            elif not isinstance(got, RC):
+                out.append((f"C15|wallet|from_source_object:{rname}:class", f"{rname}.from_source(object) returned a {type(got).__name__} that is not bound to the receiving class"))
         src = orig.to_json() if fmt == "json" else orig.to_dict()
         d = json.loads(src) if fmt == "json" else src
         if "key" in d or "enckey" not in d:
